@@ -23,11 +23,17 @@ func (n *RaftNode) VerifLeadershipTransfer() error { return n.leaveLeadership() 
 
 // VerifFSMState returns the in-memory fsm state (last applied raft index, last balloon version).
 func (n *RaftNode) VerifFSMState() (index, balloonVersion uint64) {
+	n.applyMu.RLock()
+	defer n.applyMu.RUnlock()
 	return n.state.Index, n.state.BalloonVersion
 }
 
 // VerifBalloonVersion returns the balloon's version counter (number of events).
-func (n *RaftNode) VerifBalloonVersion() uint64 { return n.balloon.Version() }
+func (n *RaftNode) VerifBalloonVersion() uint64 {
+	n.applyMu.RLock()
+	defer n.applyMu.RUnlock()
+	return n.balloon.Version()
+}
 
 // VerifRaftStats exposes raft's stats map (applied_index, commit_index, ...).
 func (n *RaftNode) VerifRaftStats() map[string]string { return n.raft.Stats() }
